@@ -73,6 +73,8 @@ enum Op {
     RegClos(u32),
     Compile { r: u32, k: u32, n: u32, uc: bool, uf: bool, ud: bool },
     Get(u32),
+    /// `Package::get_tests`: the `TestCase` of the script's one test (wraps a handle; appended like `Get`)
+    GetTest(u32),
     CloneH(usize),
     /// `TypedFunc::into_func`: handle i becomes an `impl Fn() -> u32` closure (same position)
     IntoFunc(usize),
@@ -154,6 +156,7 @@ impl Op {
                 value_of(*r, *k, *n, *uc, *uf, *ud)
             ),
             Op::Get(k) => format!("g:{k}"),
+            Op::GetTest(k) => format!("gt:{k}"),
             Op::CloneH(i) => format!("ch:{i}"),
             Op::IntoFunc(i) => format!("if:{i}"),
             Op::Call(i) => format!("x:{i}"),
@@ -184,6 +187,7 @@ impl Op {
             ("c", 8) => Op::Compile { r: n(1)?, k: n(2)?, n: n(3)?.checked_sub(n(6)?)?, uc: n(4)? == 1, uf: n(5)? == 1, ud: n(6)? == 1 },
             ("if", 2) => Op::IntoFunc(n(1)? as usize),
             ("g", 2) => Op::Get(n(1)?),
+            ("gt", 2) => Op::GetTest(n(1)?),
             ("ch", 2) => Op::CloneH(n(1)? as usize),
             ("x", 2) => Op::Call(n(1)? as usize),
             ("dh", 2) => Op::DropH(n(1)? as usize, t),
@@ -199,6 +203,7 @@ impl Op {
             Op::RegClos(_) => "reg-closure",
             Op::Compile { .. } => "compile",
             Op::Get(_) => "get",
+            Op::GetTest(_) => "get-test",
             Op::CloneH(_) => "clone",
             Op::IntoFunc(_) => "into-func",
             Op::Call(_) => "call",
@@ -244,8 +249,8 @@ struct Spec {
     compiled: BTreeMap<u32, Info>,
     pkgs: Vec<u32>,
     hs: Vec<u32>,
-    /// parallel to `hs`: the handle has been turned into a closure (cannot be cloned or converted again)
-    is_fn: Vec<bool>,
+    /// parallel to `hs`: 0 = handle, 1 = closure made by into_func, 2 = TestCase (1, 2: cannot be cloned or converted)
+    kind: Vec<u8>,
 }
 
 impl Spec {
@@ -260,9 +265,9 @@ impl Spec {
                     && (!uc || self.has_const.contains(r))
                     && (!uf || self.has_clos.contains(r))
             }
-            Op::Get(k) | Op::DropP(k, _) => self.pkgs.contains(k),
+            Op::Get(k) | Op::GetTest(k) | Op::DropP(k, _) => self.pkgs.contains(k),
             Op::Call(i) | Op::DropH(i, _) => *i < self.hs.len(),
-            Op::CloneH(i) | Op::IntoFunc(i) => *i < self.hs.len() && !self.is_fn[*i],
+            Op::CloneH(i) | Op::IntoFunc(i) => *i < self.hs.len() && self.kind[*i] == 0,
             Op::DropR(r, _) => self.rts.contains(r),
         }
     }
@@ -286,17 +291,21 @@ impl Spec {
             }
             Op::Get(k) => {
                 self.hs.push(*k);
-                self.is_fn.push(false);
+                self.kind.push(0);
+            }
+            Op::GetTest(k) => {
+                self.hs.push(*k);
+                self.kind.push(2);
             }
             Op::CloneH(i) => {
                 self.hs.push(self.hs[*i]);
-                self.is_fn.push(false);
+                self.kind.push(0);
             }
-            Op::IntoFunc(i) => self.is_fn[*i] = true,
+            Op::IntoFunc(i) => self.kind[*i] = 1,
             Op::Call(_) => {}
             Op::DropH(i, _) => {
                 self.hs.remove(*i);
-                self.is_fn.remove(*i);
+                self.kind.remove(*i);
             }
             Op::DropP(k, _) => {
                 let i = self.pkgs.iter().position(|x| x == k).unwrap();
@@ -388,6 +397,9 @@ enum H {
     Func(Box<dyn Fn() -> u32>),
     HandleCx(HandleCx),
     FuncCx(Box<dyn Fn(&mut Cx) -> u32>),
+    /// a `TestCase` (plain or context runtime): runs the script's test, which compares `main()` with
+    /// the value it had at compile time; yields that value when the test accepts, 0 when it rejects
+    Test(Box<dyn Fn() -> u32>),
     /// transient (while `into_func` consumes the handle)
     Gone,
 }
@@ -398,6 +410,7 @@ impl H {
             H::Func(f) => f(),
             H::HandleCx(h) => h.call(&mut Cx { cxn: 5 }),
             H::FuncCx(f) => f(&mut Cx { cxn: 5 }),
+            H::Test(f) => f(),
             H::Gone => unreachable!(),
         }
     }
@@ -414,7 +427,8 @@ fn roto_list(l: &[u32]) -> String {
     format!("[{}]", l.iter().map(|x| x.to_string()).collect::<Vec<_>>().join(", "))
 }
 
-fn script(k: u32, n: u32, uc: bool, uf: bool, ud: bool) -> String {
+fn script(r: u32, k: u32, n: u32, uc: bool, uf: bool, ud: bool) -> String {
+    let value = value_of(r, k, n, uc, uf, ud);
     let mut s = String::new();
     for c in 0..n {
         s.push_str(&format!("const SC{c}: Tk = mk({}, {});\n", tag_s(k, c), val_s(k, c)));
@@ -444,6 +458,7 @@ fn script(k: u32, n: u32, uc: bool, uf: bool, ud: bool) -> String {
         s.push_str(" + getclos()");
     }
     s.push_str("\n}\n");
+    s.push_str(&format!("test selfcheck {{\n    if main() != {} {{\n        reject;\n    }}\n    accept\n}}\n", value));
     s
 }
 
@@ -482,7 +497,7 @@ impl World {
                 }
             }
             Op::Compile { r, k, n, uc, uf, ud } => {
-                let src = script(*k, *n, *uc, *uf, *ud);
+                let src = script(*r, *k, *n, *uc, *uf, *ud);
                 let tree = FileTree::test_file(&format!("v{k}.roto"), &src, 0);
                 let pkg = match &self.rts[r] {
                     Rt::No(rt) => Pkg::No(tree.compile(rt).map_err(|e| format!("compile v{k}: {e}"))?),
@@ -495,6 +510,28 @@ impl World {
                 let h = match &mut p.1 {
                     Pkg::No(p) => H::Handle(p.get_function("main").map_err(|e| format!("{e}"))?),
                     Pkg::Cx(p) => H::HandleCx(p.get_function("main").map_err(|e| format!("{e}"))?),
+                };
+                self.hs.push((*k, h));
+            }
+            Op::GetTest(k) => {
+                let p = self.pkgs.iter_mut().find(|(x, _)| x == k).unwrap();
+                let h = match &mut p.1 {
+                    Pkg::No(p) => {
+                        let mut tests: Vec<_> = p.get_tests().collect();
+                        if tests.len() != 1 {
+                            return Err(format!("get_tests: {} tests", tests.len()));
+                        }
+                        let tc = tests.pop().unwrap();
+                        H::Test(Box::new(move || tc.run(&mut NoCtx).is_ok() as u32))
+                    }
+                    Pkg::Cx(p) => {
+                        let mut tests: Vec<_> = p.get_tests().collect();
+                        if tests.len() != 1 {
+                            return Err(format!("get_tests: {} tests", tests.len()));
+                        }
+                        let tc = tests.pop().unwrap();
+                        H::Test(Box::new(move || tc.run(&mut Cx { cxn: 5 }).is_ok() as u32))
+                    }
                 };
                 self.hs.push((*k, h));
             }
@@ -626,9 +663,13 @@ fn run_history(h: &[Op], drv: Option<&mut Driver>, progress: bool) -> Outcome {
         let mut calls = vec![];
         if out.violations.is_empty() {
             for (i, (k, f)) in w.hs.iter().enumerate() {
-                let got = f.call();
                 let want = spec.compiled[k].value;
-                let i_kind = if spec.is_fn[i] { "closure (into_func)" } else { "handle" };
+                let i_kind = ["handle", "closure (into_func)", "test case (get_tests)"][spec.kind[i] as usize];
+                // a test case compares main() with the value it had at compile time inside the script
+                let got = match f {
+                    H::Test(_) => if f.call() == 1 { want } else { 0 },
+                    _ => f.call(),
+                };
                 calls.push(format!("ok:{got}"));
                 if got != want {
                     out.violations.push((
@@ -732,17 +773,28 @@ fn all_ops(spec: &Spec, max_rt: u32, max_k: u32, exhaustive: bool) -> Vec<Op> {
     }
     for k in &spec.pkgs {
         v.push(Op::Get(*k));
+        // (exhaustive enumeration: one test case per version is enough, they are all alike)
+        if !exhaustive || !spec.hs.iter().zip(&spec.kind).any(|(x, t)| x == k && *t == 2) {
+            v.push(Op::GetTest(*k));
+        }
         v.push(Op::DropP(*k, false));
     }
     let mut seen = BTreeSet::new();
     for (i, k) in spec.hs.iter().enumerate() {
         // clones of one handle are indistinguishable objects: in the exhaustive
         // enumeration one representative per (version, handle / closure)
-        if exhaustive && !seen.insert((*k, spec.is_fn[i])) {
+        if exhaustive && !seen.insert((*k, spec.kind[i])) {
             continue;
         }
-        v.push(Op::CloneH(i));
-        v.push(Op::IntoFunc(i));
+        // (exhaustive enumeration: objects of one kind and version are all alike — two plain handles,
+        // one closure and one test case per version are enough to have "other handles" of every kind)
+        let count = |kind: u8| spec.hs.iter().zip(&spec.kind).filter(|(x, t)| *x == k && **t == kind).count();
+        if !exhaustive || count(0) < 2 {
+            v.push(Op::CloneH(i));
+        }
+        if !exhaustive || count(1) < 1 {
+            v.push(Op::IntoFunc(i));
+        }
         v.push(Op::DropH(i, false));
         if !exhaustive {
             v.push(Op::Call(i));
@@ -832,6 +884,21 @@ fn gen_exhaustive(depth: usize) -> Vec<Vec<Op>> {
             if matches!(op, Op::Build(_) | Op::RegConst(_) | Op::RegClos(_)) {
                 continue;
             }
+            // adjacent creation operations commute (they only add an owner): one canonical order per
+            // run of creations (compile < get < get-test < clone < into-func); drops break the run
+            let rank = |o: &Op| match o {
+                Op::Compile { .. } => Some(0),
+                Op::Get(_) => Some(1),
+                Op::GetTest(_) => Some(2),
+                Op::CloneH(_) => Some(3),
+                Op::IntoFunc(_) => Some(4),
+                _ => None,
+            };
+            if let (Some(a), Some(b)) = (cur.last().and_then(rank), rank(&op)) {
+                if b < a {
+                    continue;
+                }
+            }
             let mut s2 = spec.clone();
             s2.apply(&op);
             cur.push(op);
@@ -850,7 +917,7 @@ fn gen_exhaustive(depth: usize) -> Vec<Vec<Op>> {
 
 /// Class representatives that run first (before the enumeration): for every way an
 /// object can keep a module alive — package, handle, clone, closure made by
-/// `into_func` — the history in which it is the LAST owner while a script that
+/// `into_func`, test case from `get_tests` — the history in which it is the LAST owner while a script that
 /// uses every kind of referenced resource is called, with every order of
 /// dropping the others; plus hot reload (recompile on the same runtime after
 /// registering more) and two runtimes.
@@ -862,8 +929,9 @@ fn gen_boundary() -> Vec<Vec<Op>> {
     // get_function / call / into_func)
     for r in [0u32, 1] {
         let full = |k: u32| Op::Compile { r, k, n: 2, uc: true, uf: true, ud: true };
-        // the survivor: 0 = plain handle, 1 = clone (original dropped), 2 = closure, 3 = closure of a clone
-        for survivor in 0..4 {
+        // the survivor: 0 = plain handle, 1 = clone (original dropped), 2 = closure, 3 = closure of a clone,
+        // 4 = test case
+        for survivor in 0..5 {
             for order in 0..3 {
                 for thread in [false, true] {
                     if r == 1 && thread {
@@ -871,9 +939,9 @@ fn gen_boundary() -> Vec<Vec<Op>> {
                     }
                     let mut h = vec![Op::Build(r), Op::RegConst(r), Op::RegClos(r)];
                     h.push(full(1));
-                    h.push(Op::Get(1));
+                    h.push(if survivor == 4 { Op::GetTest(1) } else { Op::Get(1) });
                     match survivor {
-                        0 => {}
+                        0 | 4 => {}
                         1 => {
                             h.push(Op::CloneH(0));
                             h.push(Op::DropH(0, thread));
@@ -913,11 +981,11 @@ fn gen_boundary() -> Vec<Vec<Op>> {
     }
     // each kind of resource on its own (so that a result names the kind), handle and closure as survivor
     for (n, uc, uf, ud) in [(0, false, false, true), (2, false, false, false), (0, true, false, false), (0, false, true, false), (0, false, false, false)] {
-        for closure in [false, true] {
+        for obj in 0..3 {
             let mut h = pre.clone();
             h.push(Op::Compile { r: 0, k: 1, n, uc, uf, ud });
-            h.push(Op::Get(1));
-            if closure {
+            h.push(if obj == 2 { Op::GetTest(1) } else { Op::Get(1) });
+            if obj == 1 {
                 h.push(Op::IntoFunc(0));
             }
             h.extend([Op::DropP(1, false), Op::DropR(0, false), Op::Call(0), Op::DropH(0, false)]);
@@ -1046,7 +1114,7 @@ fn main() {
             if crashes.get() >= 6 {
                 rep.notes.push(format!("run cut short after {} crashed histories", crashes.get()));
             }
-            rep.notes.push(format!("boundary: {n_bnd} class representatives (last owner = handle / clone / into_func closure × drop orders × thread) run first; exhaustive: all {n_exh} histories (runtime with constant+closure) ++ suffix of ≤ {depth} ops ending in a drop; random: {n_rand} histories"));
+            rep.notes.push(format!("boundary: {n_bnd} class representatives (last owner = handle / clone / into_func closure / test case × drop orders × thread × plain / context runtime) run first; exhaustive: all {n_exh} histories (runtime with constant+closure) ++ suffix of ≤ {depth} ops ending in a drop; random: {n_rand} histories"));
             if thorough {
                 valgrind_subset(&mut rep, seed);
             }
@@ -1116,6 +1184,12 @@ fn main() {
             }
             _ => std::process::exit(64),
         },
+        Some("count") => {
+            for d in 4..=8 {
+                println!("depth {d}: {}", gen_exhaustive(d).len());
+            }
+            return;
+        }
         Some("replay") => {
             let v: serde_json::Value = serde_json::from_str(&args[2]).expect("replay json");
             let hs = v["history"].as_str().expect("history").to_string();
